@@ -239,7 +239,6 @@ run_chain(void *arg)
 			R[1].taglen = 0;
 		}
 		if (sched) {
-			vs_unlock_points = 1;
 			vs_window(1);
 		}
 		for (int j = 0; j < 2; j++) {
